@@ -316,6 +316,9 @@ def vincdir_utm(zone1, east1, north1, grid1to2, grid_dist,
     # Estimate Line Scale Factor (LSF)
     zone2, east2, north2 = (zone1, *radiations(east1, north1,
                                                grid1to2, grid_dist))
+    # the plane estimate can overshoot the equator by the arc-to-chord
+    # correction: keep it on the grid (it only seeds the iteration)
+    north2 = min(max(north2, 0.0), float(utm.falsenorth))
     lsf = line_sf(zone1, east1, north1, zone2, east2, north2)
 
     # Iteratively estimate Pt 2 Coordinates, refining LSF each time
